@@ -40,14 +40,46 @@ func (b *astBatch) Add(gp *GenParser) { b.Parsers = append(b.Parsers, gp) }
 // the generator of this check (never Go keywords).
 func c21Title(s string) string { return strings.Title(s) }
 
+// c21VerifParseSrc: `VerifParse(input, content)` inside the scratch copy of the generated ast package: the
+// body of the generated Parse with Parse<Input> of the chosen user input (ast.Parse only knows the first).
+func c21VerifParseSrc(gp *GenParser) string {
+	var sb strings.Builder
+	p := gp.G.Parser
+	fmt.Fprintf(&sb, "package ast\n\nimport p \"gp/%s\"\n\nfunc VerifParse(input int, content string) (*Tree, error) {\n", gp.Name)
+	sb.WriteString("\tb := newBuilder(\"\", content)\n\tvar l p.Lexer\n\tl.Init(content)\n\tvar ps p.Parser\n\tps.Init(b.addNode)\n\tvar err error\n\tswitch input {\n")
+	multi := 0
+	for _, in := range p.Inputs {
+		if !in.Synthetic {
+			multi++
+		}
+	}
+	k := 0
+	for _, in := range p.Inputs {
+		if in.Synthetic {
+			continue
+		}
+		method := "Parse"
+		if multi > 1 {
+			method += gp.G.Syms[p.NumTerminals+in.Nonterm].ID
+		}
+		fmt.Fprintf(&sb, "\tcase %d:\n\t\terr = ps.%s(&l)\n", k, method)
+		k++
+	}
+	sb.WriteString("\tdefault:\n\t\tpanic(\"no such input\")\n\t}\n\tif err != nil {\n\t\treturn nil, err\n\t}\n\treturn b.build()\n}\n")
+	return sb.String()
+}
+
 func c21RunnerSrc(gp *GenParser) string {
 	var sb strings.Builder
 	name := gp.Name
 	base := strings.Title(name) + "Node"
 	types := gp.G.Parser.Types
-	fmt.Fprintf(&sb, "func run_%s(text string) (out string) {\n", name)
+	fmt.Fprintf(&sb, "func run_%s(input int, text string) (out string) {\n", name)
 	sb.WriteString("\tvar sb strings.Builder\n\tdefer func() { if r := recover(); r != nil { out = \"outerpanic \" + sb.String() } }()\n")
-	fmt.Fprintf(&sb, "\ttree, err := ast_%s.Parse(\"\", text)\n\tif err != nil {\n\t\tif _, ok := err.(p_%s.SyntaxError); ok { return \"syntax\" }\n\t\treturn \"error:\" + strings.ReplaceAll(err.Error(), \" \", \"_\")\n\t}\n", name, name)
+	// input 0 goes through the generated ast.Parse; further user inputs through VerifParse (a file this
+	// harness adds to its scratch copy of the generated package: the generated builder + Parse<Input>)
+	fmt.Fprintf(&sb, "\tvar tree *ast_%s.Tree\n\tvar err error\n\tif input == 0 {\n\t\ttree, err = ast_%s.Parse(\"\", text)\n\t} else {\n\t\ttree, err = ast_%s.VerifParse(input, text)\n\t}\n", name, name, name)
+	fmt.Fprintf(&sb, "\tif err != nil {\n\t\tif _, ok := err.(p_%s.SyntaxError); ok { return \"syntax\" }\n\t\treturn \"error:\" + strings.ReplaceAll(err.Error(), \" \", \"_\")\n\t}\n", name)
 	fmt.Fprintf(&sb, "\tsb.WriteString(\"ok\")\n\twalk_%s(&sb, tree.Root())\n\treturn sb.String()\n}\n\n", name)
 
 	fmt.Fprintf(&sb, "func walk_%s(sb *strings.Builder, n *ast_%s.Node) {\n", name, name)
@@ -105,9 +137,13 @@ func (b *astBatch) Build() error {
 				return err
 			}
 		}
+		vp := filepath.Join(b.Dir, gp.Name, "ast", "verif_parse.go")
+		if err := os.WriteFile(vp, []byte(c21VerifParseSrc(gp)), 0o644); err != nil {
+			return err
+		}
 		main.WriteString(c21RunnerSrc(gp))
 	}
-	main.WriteString("var runners = map[string]func(string) string{\n")
+	main.WriteString("var runners = map[string]func(int, string) string{\n")
 	for _, gp := range b.Parsers {
 		fmt.Fprintf(&main, "\t%q: run_%s,\n", gp.Name, gp.Name)
 	}
@@ -118,12 +154,13 @@ func (b *astBatch) Build() error {
 	w := bufio.NewWriter(os.Stdout)
 	defer w.Flush()
 	for sc.Scan() {
-		parts := strings.SplitN(sc.Text(), "\t", 2)
-		if len(parts) != 2 {
+		parts := strings.SplitN(sc.Text(), "\t", 3)
+		if len(parts) != 3 {
 			fmt.Fprintln(w, "badline")
 			continue
 		}
-		text, err := strconv.Unquote(parts[1])
+		input, _ := strconv.Atoi(parts[1])
+		text, err := strconv.Unquote(parts[2])
 		if err != nil {
 			fmt.Fprintln(w, "badquote")
 			continue
@@ -133,7 +170,7 @@ func (b *astBatch) Build() error {
 			fmt.Fprintln(w, "norunner")
 			continue
 		}
-		fmt.Fprintln(w, r(text))
+		fmt.Fprintln(w, r(input, text))
 		w.Flush()
 	}
 }
@@ -155,12 +192,13 @@ func (b *astBatch) Build() error {
 type astReq struct {
 	Parser string
 	Text   string
+	Input  int // index among the user (non-synthetic) inputs
 }
 
 func (b *astBatch) Run(reqs []astReq) []string {
 	var in bytes.Buffer
 	for _, r := range reqs {
-		fmt.Fprintf(&in, "%s\t%s\n", r.Parser, strconvQuote(r.Text))
+		fmt.Fprintf(&in, "%s\t%d\t%s\n", r.Parser, r.Input, strconvQuote(r.Text))
 	}
 	ctx, cancel := context.WithTimeout(context.Background(), 10*time.Minute)
 	defer cancel()
